@@ -5,6 +5,7 @@
 import Pymodbus.Props.C05
 import Pymodbus.Props.C01
 import Pymodbus.Model.Diag
+import Pymodbus.Model.Txn
 namespace Pymodbus.Props.C14
 open Pymodbus StoreSpec RegisterFile Props.C18 Props.C04 PduSpec
 
@@ -142,17 +143,22 @@ theorem read_response_length (L : Layout) (m : Mem) (r : Req)
 theorem ceil8 (n : Nat) : n / 8 + (if n % 8 ≠ 0 then 1 else 0) = (n + 7) / 8 := by
   split <;> omega
 
+/-- the read requests (FC 1-4, 23) -/
+def IsRead : Req → Prop
+  | .readCoils .. | .readDiscrete .. | .readHolding .. | .readInput .. | .readWrite .. => True
+  | _ => False
+
 /-- For every read request (FC 1-4, 23) that the server accepts, the predicted reply PDU size equals
     1 + the length of the encoded normal response — for every context, quantity and content. -/
 theorem read_size_exact (s : SlaveCtx) (r : Req) (hr : InScope r) (k p : Nat)
     (hp : Impl.respPduSize k r = some p)
-    (hread : match r with | .readCoils .. | .readDiscrete .. | .readHolding .. | .readInput .. | .readWrite .. => True | _ => False)
+    (hread : IsRead r)
     (hne : (Impl.serverExecute s r).2.isException = false)
     (bs : Bytes) (he : Impl.encResp (Impl.serverExecute s r).2 = .ok bs) : p = 1 + bs.length := by
   have hspec := C05.impl_response_is_spec s r hr
   rw [hspec] at hne he
   have hshape := read_response_length (layoutOf s) (absMem s) r hne
-  cases r <;> simp only at hread
+  cases r <;> simp only [IsRead] at hread
   case readCoils a n =>
     obtain ⟨bits, e, hl⟩ := hshape
     rw [e] at he
@@ -180,6 +186,42 @@ theorem read_size_exact (s : SlaveCtx) (r : Req) (hr : InScope r) (k p : Nat)
     simp only [Impl.respPduSize, Option.some.injEq] at hp
     have he' : Impl.encResp (.readHolding regs) = .ok bs := he
     rw [enc_regs_length he', hl, ← hp]; omega
+
+/-! ### from the PDU to the ADU: what the client's transaction manager expects (`expected_response_length`) -/
+
+/-- For every read request (FC 1-4, 23) the server accepts, on every serial framing: the ADU length the client's
+    transaction manager computes before it reads (`_calculate_response_length`: base ADU size + predicted PDU
+    size, doubled for ASCII) is exactly the length of the frame the server's framer builds around the normal
+    response — every context, quantity and content.  (This discharges the `ExpectedOk` hypothesis of C08's
+    conformant-reply theorems for these requests.) -/
+theorem expected_adu_exact (cfg : Txn.Cfg) (hne : cfg.framer ≠ .tcp) (hudp : cfg.transport ≠ .udp)
+    (s : SlaveCtx) (r : Req) (hr : InScope r)
+    (hread : IsRead r)
+    (hok : (Impl.serverExecute s r).2.isException = false)
+    (bs : Bytes) (he : Impl.encResp (Impl.serverExecute s r).2 = .ok bs) :
+    Txn.expectedLen cfg r = some (Int.ofNat (match cfg.framer with
+      | .rtu => bs.length + 4 | .ascii => 2 * bs.length + 9 | .binary => bs.length + 6 | .tcp => 0)) := by
+  have hp : ∃ p, Impl.respPduSize cfg.plusWords r = some p := by
+    cases r <;> simp only [IsRead] at hread <;> exact ⟨_, rfl⟩
+  obtain ⟨p, hp⟩ := hp
+  have hsz := read_size_exact s r hr cfg.plusWords p hp hread hok bs he
+  unfold Txn.expectedLen
+  simp only [hne, if_false, hp, hudp]
+  cases hf : cfg.framer with
+  | tcp => exact absurd hf hne
+  | rtu =>
+    have h0 : ¬ p = 0 := by omega
+    simp only [reduceCtorEq, if_false, h0, Txn.baseAdu]
+    congr 2; omega
+  | ascii =>
+    have h0 : ¬ p * 2 = 0 := by omega
+    simp only [if_true, h0, if_false, Txn.baseAdu]
+    congr 2; omega
+  | binary =>
+    have h0 : ¬ p = 0 := by omega
+    simp only [reduceCtorEq, if_false, h0, Txn.baseAdu]
+    congr 2; omega
+
 
 /-- Write requests (FC 5, 6, 15, 16): the prediction is 5 and every normal write response encodes to
     4 bytes after the function code. -/
